@@ -96,6 +96,7 @@ def play(case, expand):
         model.systems.add_system(Spawner(model, log, sp_at, make))
 
     reg_time = {}
+    names = {}
 
     def expect_timestep(t):
         """expected (t, id) entries of one timestep in C01 order: (-priority, registration moment). The spawner is registered
@@ -107,17 +108,17 @@ def play(case, expand):
             if t > sp_at:
                 rows.append(((-sp_prio, (sp_at, 1, 0)), "wS", sp_spec))
         for i in registered:
-            rows.append(((0, (reg_time[i], 0, registered.index(i))), f"w{i}", specs[i]))
+            rows.append(((0, (reg_time[i], 0, registered.index(i))), i, specs[i]))
         out = []
         for _, sid, spec in sorted(rows, key=lambda r: r[0]):
             if spec is None or runs(spec, t):
-                out.append((t, sid))
-                if sid.startswith("w") and sid != "wS":
-                    info["ran"].add(int(sid[1:]))
-            elif sid != "wS":
+                out.append((t, names[sid] if isinstance(sid, int) else sid))
+                if isinstance(sid, int):
+                    info["ran"].add(sid)
+            elif isinstance(sid, int):
                 end_ = MAXSIZE if spec.get("end") is None else int(spec["end"])
                 if int(spec["start"]) <= t <= end_:
-                    info["offphase"].add(int(sid[1:]))
+                    info["offphase"].add(sid)
         return out
 
     def register_due():
@@ -127,7 +128,14 @@ def play(case, expand):
             kw = {"start": int(s["start"]), "frequency": int(s["freq"])}
             if s.get("end") is not None:
                 kw["end"] = int(s["end"])
-            model.systems.add_system((WinCollector if s.get("coll") else Win)(f"w{i}", model, log, **kw))
+            sid = {"int": 1000 + i, "tuple": ("w", i), "empty": "" if i == 0 else f"w{i}", "spaces": f"w {i} é"}.get(s.get("idkind"), f"w{i}")
+            names[i] = sid
+            try:
+                model.systems.add_system((WinCollector if s.get("coll") else Win)(sid, model, log, **kw))
+            except (TypeError, ValueError):
+                if isinstance(sid, str):
+                    raise
+                continue                            # a tree may insist on str ids (the documented type): then the system simply is not there
             registered.append(i)
             reg_time[i] = T
             if T > int(s["start"]):
@@ -244,7 +252,8 @@ def strategy(tier):
         freq = draw(st.sampled_from([1, 1, 2, 2, 3, 4, 5, 6, 17]))
         end = draw(wone_of(st.none(), st.none(), st.integers(start - 2, start + 12)))
         reg = draw(wone_of(st.just(0), st.just(0), st.integers(0, 12)))
-        return {"start": start, "freq": freq, "end": end, "reg_at": reg, "coll": draw(st.sampled_from([False, False, True]))}
+        return {"start": start, "freq": freq, "end": end, "reg_at": reg, "coll": draw(st.sampled_from([False, False, True])),
+                "idkind": draw(st.sampled_from(["str", "str", "str", "str", "int", "tuple", "empty", "spaces"]))}
     op = wone_of(st.just({"op": "step"}), st.just({"op": "step"}), st.just({"op": "exec_systems"}),
                    st.builds(lambda n: {"op": "stepn", "n": n}, st.integers(1, 5)),
                    st.builds(lambda n: {"op": "stepn", "n": n}, st.integers(2, 5)),
